@@ -12,7 +12,12 @@ main stream (its program shapes include functions defined in dead code — after
 and reached through hoisting, whose helpers only they call) and the corpus (corpus/run, corpus/C06).
 Implementation-level oracle (no model): an accepted program, run with the optimisation plan and the
 frame arena as the CLI runs it (and again without either), ends in ok or a reported runtime error —
-never panic, abort or hang (ORACLE-FAIL [C06])."""
+never panic, abort or hang (ORACLE-FAIL [C06]).
+Props/C06Accepted.lean discharges the residual sites from the resolver model under ONE hypothesis on the
+optimisation plan, PlanReach (a call-closed set K of functions is kept; proved of the analysis MODEL's plan
+under conditions on program + facts: analysis_plan_reach, c06_pipeline_reach). The driver evaluates it with the
+canonical K on the REAL plan and AST of every accepted program (`kept` request: reach=, num=); reach=0 means the
+theorem does not cover the tree -> VIOLATION (the crashing program when there is one)."""
 import runlib
 from common import DRIVER, Check, sh
 
@@ -45,49 +50,76 @@ def run(ck: Check):
             ends[e] = ends.get(e, 0) + 1
         ck.extra_cov["product_endings"] = dict(sorted(ends.items()))
         ck.extra_cov["exhaustive"] = True
-    not_kept = plan_keeps_calls(ck, streams)
+    not_kept, not_reach = plan_hypothesis(ck, streams)
     if ck.tier == "thorough":
         ck.leanchecker(MODULES)
     if ck.is_broken():
         search(ck, streams)
     if not_kept:
-        # `keptBlock` asks every function the plan keeps to call kept functions only; a hoisted definition in dead
-        # code that nobody calls (so what only it calls is "unused" and removed) fails it although nothing of it can
-        # run.  Such programs are outside the hypothesis of c06_accepted / c06_pipeline — they are covered by the tie
-        # (run with the plan: no crash) only; the share is reported, the smallest one kept as a sample.
+        # STATISTIC only.  `keptBlock` (the former hypothesis) asks every function the plan keeps to call kept
+        # functions only; a hoisted definition in dead code that nobody calls (so what only it calls is "unused" and
+        # removed) fails it although nothing of it can run (Props/C06Accepted.lean: keptBlock_too_strong).  The
+        # theorems now assume PlanReach, evaluated below.
         r, a = min(not_kept, key=lambda x: len(x[0]))
-        ck.extra_cov["plan_keeps_calls_not_covered_sample"] = {"program": runlib.src_of(r)[:1500], "impl": a[:200],
-                                                               "plan": r.split(" plan=", 1)[1].split(" ", 1)[0]}
-        crashed = [(r, a) for r, a in not_kept if "end=panic" in a or "end=abort" in a]
-        if crashed and not ck.is_broken():
-            r, a = min(crashed, key=lambda x: len(x[0]))
+        ck.extra_cov["keptBlock_false_sample"] = {"program": runlib.src_of(r)[:1500], "impl": a[:200],
+                                                  "plan": r.split(" plan=", 1)[1].split(" ", 1)[0]}
+    if not_reach and not ck.violations:
+        # The hypothesis of c06_accepted / c06_source / c06_pipeline (PlanReach, with the canonical K) is NOT met by
+        # the plan of the real analyses on an accepted program: the plan removes a function that reachable code
+        # calls (or the resolver left a statement / definition without id).  If the implementation crashed on such
+        # a program that program is the failing input; otherwise the proof no longer covers the tree.
+        crashed = [(r, a, k) for r, a, k in not_reach if any(x in a for x in ("end=panic", "end=abort", "end=timeout"))]
+        if crashed:
+            r, a, k = min(crashed, key=lambda x: len(x[0]))
             ck.report_violation({"kind": "impl-vs-oracle", "family": "run", "what": "accepted program crashes with the "
-                                 "plan of the real analyses, which removes a function that kept code calls",
-                                 "program": runlib.src_of(r), "requests": [r], "impl": a})
+                                 "plan of the real analyses, which removes a function that reachable code calls (" + k + ")",
+                                 "program": runlib.src_of(r), "requests": [r], "impl": a, "hypothesis": k})
+        else:
+            r, a, k = min(not_reach, key=lambda x: len(x[0]))
+            ck.report_violation({"kind": "hypothesis-not-met", "family": "run",
+                                 "theorem": "NaijaVerif.Props.C06Accepted.c06_pipeline (hypothesis PlanReach / "
+                                            "FactsCoverCalls; c06_accepted, c06_source alike)",
+                                 "what": "the plan of the real analyses does not keep what reachable code calls on an "
+                                         "accepted program (Bridge.planReaches / numBlock evaluated by the driver: " + k +
+                                         "); no crashing program found",
+                                 "program": runlib.src_of(r), "requests": [r], "impl": a, "hypothesis": k,
+                                 "programs_not_covered": len(not_reach)}, no_input_found=True)
     return ck.finish()
 
 
-def plan_keeps_calls(ck, streams):
-    """`Bridge.keptBlock plan root` (the decidable hypothesis PlanKeepsCalls of Props/C06Accepted.lean) evaluated by the
-    driver on the REAL plan and the real resolver's annotated AST of every accepted program of the run streams.
-    Returns [(request, implementation answer)] of the programs on which it is false."""
-    bad = []
+def plan_hypothesis(ck, streams):
+    """The hypotheses on the optimisation plan of Props/C06Accepted.lean, evaluated by the driver (`kept` request) on
+    the REAL plan and the real resolver's annotated AST of every accepted program of the run streams:
+      kept   Bridge.keptBlock plan root       the former, too strong hypothesis PlanKeepsCalls (statistic);
+      reach  Bridge.planReaches plan root     PlanReach with the canonical K (closure of the call annotations): the
+                                              hypothesis of c06_accepted / c06_source / c06_pipeline;
+      num    Bridge.numBlock root             every statement / definition numbered (first part of FactsCoverCalls,
+                                              c06_pipeline_reach; the other two parts — ownOkB, brClosed — are
+                                              evaluated on every case of the plan family, C03).
+    Returns ([(request, impl answer)] with kept=0, [(request, impl answer, driver answer)] with reach=0 or num=0)."""
+    not_kept, not_reach = [], []
     for _kind, s in streams.items():
         pairs = [(r, a) for r, a in zip(s["requests"], s["res"]["impl_lines"]) if r.startswith("run ") and " plan=none" not in r]
         if not pairs:
             continue
         p = sh([DRIVER, "run"], inp=("\n".join("kept " + r[4:] for r, _ in pairs) + "\n").encode(), timeout=3600)
         ans = p.stdout.decode(errors="replace").splitlines()
-        ck.count("plan_keeps_calls_checked", len(pairs))
-        ck.count("plan_keeps_calls_with_removed_functions",
+        ck.count("plan_hypothesis_checked", len(pairs))
+        ck.count("plan_hypothesis_with_removed_functions",
                  sum(1 for r, _ in pairs if not r.split(" plan=", 1)[1].split(" ", 1)[0].endswith(";-")))
         if len(ans) != len(pairs):
             ck.broken.append({"kind": "driver-answers-missing", "family": "run", "what": f"kept: {len(ans)}/{len(pairs)} answers"})
         for (r, a), k in zip(pairs, ans):
-            if k != "kept=1":
-                bad.append((r, a))
-    ck.count("plan_keeps_calls_false", len(bad))
-    return bad
+            f = dict(x.split("=", 1) for x in k.split() if "=" in x)
+            if f.get("kept") != "1":
+                not_kept.append((r, a))
+            if f.get("reach") != "1" or f.get("num") != "1":
+                not_reach.append((r, a, k))
+    ck.count("keptBlock_false", len(not_kept))
+    ck.count("plan_reach_false", len(not_reach))
+    n = ck.counters.get("plan_hypothesis_checked", 0)
+    ck.extra_cov["plan_reach_share"] = f"{n - len(not_reach)}/{n}"
+    return not_kept, not_reach
 
 
 def search(ck, streams):
@@ -116,4 +148,16 @@ def search(ck, streams):
 
 
 def replay(ck, data):
+    if data.get("kind") == "hypothesis-not-met":
+        reqs = data.get("requests", [])
+        p = sh([DRIVER, "run"], inp=("\n".join("kept " + r[4:] for r in reqs) + "\n").encode(), timeout=600)
+        ans = p.stdout.decode(errors="replace").splitlines()
+        bad = 0
+        for r, k in zip(reqs, ans):
+            print("program:\n" + runlib.src_of(r))
+            print("plan    :", r.split(" plan=", 1)[1].split(" ", 1)[0])
+            print("driver  :", k, "(reach = Bridge.planReaches, the hypothesis PlanReach of c06_pipeline)")
+            if "reach=1" not in k or "num=1" not in k:
+                bad += 1
+        return 1 if bad or runlib.replay_requests(ck, data) else 0
     return runlib.replay_requests(ck, data)
